@@ -1,18 +1,23 @@
 // Package c14: quorum certificates need a quorum of distinct, valid validator
 // signatures. Exhaustive bounded enumeration of signature lists (multisets over
-// entry kinds, in two orders) against the real DefaultSaftyRules obtained
-// through Smr.GetSaftyRules, and against tdpos / xpoa CheckMinerMatch with
-// chained-BFT enabled.
+// entry kinds, in two orders, a repeated member in every spelling of its
+// further entries: identical, re-signed, re-encoded - sigs.go) against the real
+// DefaultSaftyRules obtained through Smr.GetSaftyRules, and against tdpos /
+// xpoa CheckMinerMatch with chained-BFT enabled; every list is judged by a
+// history-free instance and by long-lived instances that were first shown
+// honest traffic (hist.go): what an instance verified before must not change
+// its verdict on a certificate.
 package c14
 
 import (
 	"container/list"
 	"encoding/json"
 	"fmt"
-	"runtime"
+	"os"
 	"sort"
 	"strings"
 	"sync"
+	"time"
 
 	bft "github.com/xuperchain/xupercore/kernel/consensus/base/driver/chained-bft"
 	bftcrypto "github.com/xuperchain/xupercore/kernel/consensus/base/driver/chained-bft/crypto"
@@ -32,7 +37,14 @@ type Case struct {
 	Collector string   `json:"collector,omitempty"`
 	Entries   []string `json:"entries"`         // ordered signature entries (tokens, see sigs.go)
 	Input     int      `json:"input,omitempty"` // CalVotesThreshold only
+	// what the judging instance saw before (hist.go); all empty: a fresh instance
+	History      []string   `json:"history,omitempty"`       // honest steps, in order
+	Earlier      [][]string `json:"earlier,omitempty"`       // then these certificates, each EarlierTimes times
+	EarlierTimes int        `json:"earlier_times,omitempty"` // (the history-free instance is shown every list twice)
+	Times        int        `json:"times,omitempty"`         // the list is presented Times times, the last verdict is judged
 }
+
+func (c Case) hasPast() bool { return len(c.History) > 0 || len(c.Earlier) > 0 || c.Times > 1 }
 
 func address(name string) *cctx.Address {
 	k := world.Keys[name]
@@ -110,10 +122,16 @@ func evalProposal(r rules, n int, es []*entry) (accepted bool, t tally) {
 // entries plus the entries of one kind that must not count.
 func keyFor(n int, es []*entry, t tally, accepts func([]*entry) bool) string {
 	ks := kindsOf(n, collector, es)
+	firstCollector := -1
+	for i := range es {
+		if ks[i] == "collector" && firstCollector < 0 {
+			firstCollector = i
+		}
+	}
 	sub := func(kinds ...string) []*entry {
 		var out []*entry
 		for i, e := range es {
-			if ks[i] == "first" {
+			if ks[i] == "first" || i == firstCollector { // the entries the model counts (tallyOf)
 				out = append(out, e)
 				continue
 			}
@@ -142,10 +160,48 @@ func keyFor(n int, es []*entry, t tally, accepts func([]*entry) bool) string {
 		{"c14.address_key_mismatch_counts", []string{"mismatch"}},
 	} {
 		if l := sub(c.kinds...); len(l) > len(d) && accepts(l) {
+			if c.key != "c14.non_member_signature_counts" && len(c.kinds) > 0 && (c.kinds[0] == "repeat" || c.kinds[0] == "collector") {
+				// further entries of a member (or of the collector) count: in any spelling, or only in other bytes?
+				if k := repeatKey(l, accepts); k != "c14.repeated_member_signature_counts" {
+					return k
+				}
+			}
 			return c.key
 		}
 	}
 	return t.classify() // several kinds together
+}
+
+// repeatKey tells WHICH repeats count: identical copies of one entry (then
+// every repeat does), or only repeats in other bytes - the member's public key
+// re-encoded, or other signature bytes of the same member (re-signed, or the
+// signature re-encoded).
+func repeatKey(l []*entry, accepts func([]*entry) bool) string {
+	first := map[string]*entry{}
+	same := make([]*entry, len(l))
+	otherKey, otherSig := false, false
+	for i, e := range l {
+		f, ok := first[e.addr]
+		if !ok {
+			first[e.addr] = e
+			same[i] = e
+			continue
+		}
+		same[i] = f
+		if e.sign.PublicKey != f.sign.PublicKey {
+			otherKey = true
+		}
+		if string(e.sign.Sign) != string(f.sign.Sign) {
+			otherSig = true
+		}
+	}
+	switch {
+	case !otherKey && !otherSig, accepts(same):
+		return "c14.repeated_member_signature_counts"
+	case otherKey:
+		return "c14.repeated_member_reencoded_public_key_counts"
+	}
+	return "c14.repeated_member_other_signature_bytes_counts"
 }
 
 func evalVote(r rules, n int, es []*entry) (accepted bool, t tally) {
@@ -181,7 +237,14 @@ func kindsFor(n int) []kind {
 // tokens renders a multiset (counts per kind) as the canonical ordered token list.
 // Entries that must not count and need a member's address take the members from
 // the top (Vn, Vn-1, ...), i.e. preferably members that did not sign validly.
-func tokens(n int, ks []kind, counts []int, fresh bool) []string {
+//
+// mode says how the further copies (c >= 1) of a repeated member are spelled:
+// modeSame identical copies of the entry, modeFresh other signatures of the
+// same member over the same id (Vi#c), modeReenc+r the entry re-encoded, copy c
+// with re-encoding (r+c-1) mod R of the R accepted ones (so that two copies
+// never coincide while R allows it).
+func tokens(n int, ks []kind, counts []int, mode int) []string {
+	renc := reencodingNames()
 	var out []string
 	bad := 0
 	nextBad := func() int {
@@ -193,10 +256,13 @@ func tokens(n int, ks []kind, counts []int, fresh bool) []string {
 		for c := 0; c < counts[ki]; c++ {
 			switch k.name {
 			case "member", "collector":
-				if c == 0 || !fresh {
+				switch {
+				case c == 0 || mode == modeSame:
 					out = append(out, vname(k.member))
-				} else {
+				case mode == modeFresh:
 					out = append(out, fmt.Sprintf("%s#%d", vname(k.member), c))
+				default:
+					out = append(out, vname(k.member)+"~"+renc[(mode-modeReenc+c-1)%len(renc)])
 				}
 			case "nonmember":
 				out = append(out, "X")
@@ -215,6 +281,29 @@ func tokens(n int, ks []kind, counts []int, fresh bool) []string {
 		}
 	}
 	return out
+}
+
+const (
+	modeSame = iota
+	modeFresh
+	modeReenc
+)
+
+const (
+	reencNone = iota
+	reencOnce
+	reencAll
+)
+
+// reencFor: all re-encodings up to validator-set size allN, one rotating spelling up to onceN, none above.
+func reencFor(n, allN, onceN int) int {
+	switch {
+	case n <= allN:
+		return reencAll
+	case n <= onceN:
+		return reencOnce
+	}
+	return reencNone
 }
 
 // forEachMultiset calls f with every count vector over len(ks) kinds of total size <= max.
@@ -244,18 +333,30 @@ func reversed(s []string) []string {
 }
 
 // forEachCase streams every case of validator-set size n (lists of size <= max):
-// every multiset, in canonical and reversed order, repeats as identical copies
-// and as fresh signatures. f must not keep toks.
-func forEachCase(n, max int, f func(toks []string)) int {
+// every multiset, in canonical and reversed order; a multiset that repeats a
+// member in every spelling of the repeats: identical copies, fresh signatures,
+// and re-encoded (see tokens) in `reenc` spellings: reencAll = once per
+// accepted re-encoding r (copy c takes re-encoding r+c-1), reencOnce = once (r=0:
+// copy c takes re-encoding c-1, so the copies still run through the alphabet),
+// reencNone = not at all. ms is the index of the multiset (all spellings of one
+// multiset share it).
+func forEachCase(n, max int, reenc int, f func(ms int, toks []string)) int {
 	ks := kindsFor(n)
-	total := 0
+	modes := modeReenc
+	switch reenc {
+	case reencOnce:
+		modes = modeReenc + 1
+	case reencAll:
+		modes = modeReenc + len(reencodingNames())
+	}
+	total, ms := 0, 0
 	emit := func(t []string) {
 		total++
-		f(t)
+		f(ms, t)
 		r := reversed(t)
 		if strings.Join(r, ",") != strings.Join(t, ",") {
 			total++
-			f(r)
+			f(ms, r)
 		}
 	}
 	forEachMultiset(len(ks), max, func(counts []int) {
@@ -265,10 +366,13 @@ func forEachCase(n, max int, f func(toks []string)) int {
 				hasRepeat = true
 			}
 		}
-		emit(tokens(n, ks, counts, false))
+		emit(tokens(n, ks, counts, modeSame))
 		if hasRepeat {
-			emit(tokens(n, ks, counts, true))
+			for m := modeFresh; m < modes; m++ {
+				emit(tokens(n, ks, counts, m))
+			}
 		}
+		ms++
 	})
 	return total
 }
@@ -300,23 +404,24 @@ func less(a, b Case) bool {
 	return a.Seam < b.Seam
 }
 
-// exotic counts entries in the collector's name and fresh re-signatures: the
-// reported counterexample prefers plain ones.
+// exotic counts entries in the collector's name, fresh re-signatures and
+// re-encodings, and what the instance must have seen before: the reported
+// counterexample prefers plain ones.
 func exotic(c Case) int {
 	k := 0
 	for _, t := range c.Entries {
 		name := t
-		if i := strings.IndexAny(t, ":#"); i >= 0 {
+		if i := strings.IndexAny(t, ":#~"); i >= 0 {
 			name = t[:i]
 		}
 		if name == collector {
 			k++
 		}
-		if strings.Contains(t, "#") {
+		if strings.ContainsAny(t, "#~") {
 			k++
 		}
 	}
-	return k
+	return k + len(c.History) + 100*len(c.Earlier) + c.Times
 }
 
 func (b *best) offer(c Case, v core.Violation) {
@@ -347,15 +452,52 @@ func proposalViolation(seam string, n int, toks []string, key string, t tally) (
 	}
 }
 
+// shards is the fixed number of long-lived instance sets the cases are dealt
+// to (multiset index mod shards), independent of the machine: which instance
+// saw which cases before is part of the described space.
+const shards = 32
+
+type job struct {
+	n    int
+	toks []string
+	es   []*entry
+}
+
+// pastViolation reports a below-quorum acceptance that needs a past.
+func pastViolation(bst *best, viol map[string]int, c Case, base, need string, what string) {
+	key := histKey(need, base)
+	viol[c.Seam+" "+key]++
+	bst.offer(c, core.Violation{Key: key, Summary: histSummary(c, what),
+		Expected: "refused, as by a fresh instance: what an instance verified before must not change the verdict on a certificate",
+		Observed: "accepted"})
+}
+
 func run(tier core.Tier) *core.Report {
 	rep := core.NewReport("C14", tier, "exploration")
 	world.Init()
-	maxN, capSize, maxNBcs := 7, 6, 4
+	prep()
+	// maxN/capSize: the case space; histSingleN: validator sets shown to the single-step histories;
+	// bcs: tdpos / xpoa
+	// reencAllN: validator sets whose repeats are spelled once per re-encoding (above: once, rotating)
+	// (above, up to reencOnceN: once, with rotating re-encodings; above that: identical and fresh copies only)
+	maxN, capSize, histSingleN, reencAllN, reencOnceN, maxNBcs, reencAllNBcs := 7, 6, 4, 3, 5, 4, 3
 	if tier == core.Thorough {
-		maxN, capSize, maxNBcs = 10, 8, 5
+		maxN, capSize, histSingleN, reencAllN, reencOnceN, maxNBcs, reencAllNBcs = 10, 8, 6, 5, 7, 5, 4
 	}
+	t0 := time.Now()
+	phase := func(name string) {
+		if os.Getenv("C14_TIMING") != "" {
+			fmt.Fprintf(os.Stderr, "C14 phase %s done at %.1fs\n", name, time.Since(t0).Seconds())
+		}
+	}
+	renc, rencRefused := reencodings()
+	if len(renc) == 0 {
+		core.HarnessError("C14: the crypto client accepts no re-encoding of a public key or signature: the repeated-member-in-other-bytes dimension would be empty")
+	}
+	hists := historiesFor(historySteps, maxN, histSingleN)
 	bst := &best{m: map[string]core.Violation{}, c: map[string]Case{}}
 	cnt := &counters{violations: map[string]int{}, acceptedByN: map[int]int{}}
+	hst := &histStats{}
 
 	// --- CalVotesThreshold against the formula -------------------------------
 	r0 := newRules("V2")
@@ -379,46 +521,97 @@ func run(tier core.Tier) *core.Report {
 	rep.Set("threshold_pairs", thr)
 	rep.Set("threshold_n0_observed", fmt.Sprintf("CalVotesThreshold(0,0)=%v (empty validator set, outside the quantifier; CheckProposal refuses nil validators only)", r0.CalVotesThreshold(0, 0)))
 
-	// --- CheckProposal: all multisets -----------------------------------------
-	type job struct {
-		n    int
-		toks []string
-		es   []*entry
-	}
+	// --- CheckProposal: all multisets x all histories -------------------------
 	perN := map[string]int{}
-	workers := runtime.NumCPU()
-	if workers > 32 {
-		workers = 32
-	}
 	var wg sync.WaitGroup
-	ch := make(chan job, 1024)
-	for w := 0; w < workers; w++ {
+	var chans [shards]chan job
+	for w := 0; w < shards; w++ {
+		chans[w] = make(chan job, 256)
 		wg.Add(1)
-		go func() {
+		go func(ch chan job) {
 			defer wg.Done()
-			r := newRules("V2") // a replica checking the collector's proposal
 			loc := counters{violations: map[string]int{}, acceptedByN: map[int]int{}}
+			lh := &histStats{}
+			var set *primedSet
 			for j := range ch {
-				acc, t := evalProposal(r, j.n, j.es)
-				loc.evals++
-				if nonTrivial(t) {
-					loc.nontrivial++
+				if set == nil || set.n != j.n {
+					set = newPrimedSet("V2", j.n, hists, lh)
 				}
-				if acc {
-					loc.accepted++
-					loc.acceptedByN[j.n]++
-					if t.Distinct < t.Threshold {
-						key := keyFor(j.n, j.es, t, func(x []*entry) bool { return acceptsProposal(r, j.n, x) })
-						c, v := proposalViolation("CheckProposal", j.n, j.toks, key, t)
-						loc.violations["CheckProposal "+v.Key]++
-						bst.offer(c, v)
+				t := tallyOf(j.n, collector, j.es)
+				below := t.Distinct < t.Threshold
+				accNone := false
+				for hi, h := range set.hists {
+					acc := acceptsProposal(set.inst[hi], j.n, j.es)
+					if hi == 0 { // the history-free instance: the counts of the statement's space
+						accNone = acc
+						loc.evals++
+						if nonTrivial(t) {
+							loc.nontrivial++
+						}
+						if acc {
+							loc.accepted++
+							loc.acceptedByN[j.n]++
+						} else {
+							loc.rejected++
+							if !below {
+								loc.rejectedAbove++
+							}
+						}
+						if j.n <= histSingleN {
+							lh.again++
+							if again := acceptsProposal(set.inst[hi], j.n, j.es); again != acc {
+								lh.againDiffers++
+								acc = acc || again
+							}
+						}
+					} else {
+						lh.evals++
+						if acc {
+							lh.accepted++
+						} else {
+							lh.rejected++
+						}
+						if acc != accNone {
+							if acc {
+								lh.differsAccept++
+							} else {
+								lh.differsRefuse++
+							}
+						}
 					}
-				} else {
-					loc.rejected++
-					if t.Distinct >= t.Threshold {
-						loc.rejectedAbove++
+					if !acc || !below {
+						continue
 					}
+					// accepted below quorum: first on a blank instance (then no past is needed) ...
+					if fr := newRules("V2"); acceptsProposal(fr, j.n, j.es) {
+						if hi == 0 {
+							key := keyFor(j.n, j.es, t, func(x []*entry) bool { return acceptsProposal(fr, j.n, x) })
+							c, v := proposalViolation("CheckProposal", j.n, j.toks, key, t)
+							loc.violations["CheckProposal "+v.Key]++
+							bst.offer(c, v)
+						}
+						continue
+					}
+					// ... else it took what this long-lived instance saw before
+					lh.suspected++
+					if set.conf[hi] >= maxConfirm {
+						continue
+					}
+					set.conf[hi]++
+					et := 1
+					if hi == 0 && j.n <= histSingleN {
+						et = 2
+					}
+					c, r, need := explain("V2", "CheckProposal", j.n, h, j.toks, set.seen, et)
+					if r == nil {
+						lh.unconfirmed++
+						continue
+					}
+					lh.confirmed++
+					base := keyFor(j.n, j.es, t, func(x []*entry) bool { return acceptsProposal(r, j.n, x) })
+					pastViolation(bst, loc.violations, c, base, need, fmt.Sprintf("%d distinct members validly signed the certified id, %d needed", t.Distinct, t.Threshold))
 				}
+				set.seen = append(set.seen, j.toks)
 			}
 			cnt.mu.Lock()
 			cnt.evals += loc.evals
@@ -432,11 +625,13 @@ func run(tier core.Tier) *core.Report {
 			for k, v := range loc.acceptedByN {
 				cnt.acceptedByN[k] += v
 			}
+			hst.add(lh)
 			cnt.mu.Unlock()
-		}()
+		}(chans[w])
 	}
 	complete := true
 	var sampleToks [][]string
+	reencCases, reuseCases, sampledReenc := 0, 0, false
 	// the producer builds every signature once (memoised), so workers only read
 	for n := 1; n <= maxN && complete; n++ {
 		max := n + 1
@@ -444,7 +639,7 @@ func run(tier core.Tier) *core.Report {
 			max = capSize
 		}
 		sent := 0
-		total := forEachCase(n, max, func(toks []string) {
+		total := forEachCase(n, max, reencFor(n, reencAllN, reencOnceN), func(ms int, toks []string) {
 			if !complete {
 				return
 			}
@@ -453,25 +648,45 @@ func run(tier core.Tier) *core.Report {
 				return
 			}
 			sent++
-			if n == 4 && (len(toks) == 2 && toks[0] == "V2" && toks[1] == "V3" || sent == 700 || sent == 4000) {
-				sampleToks = append(sampleToks, toks)
+			joined := strings.Join(toks, ",")
+			reenc := strings.Contains(joined, "~")
+			if reenc {
+				reencCases++
 			}
-			ch <- job{n, toks, mustEntries(toks)}
+			if strings.Contains(joined, ":otherid") {
+				reuseCases++
+			}
+			if n == 4 && (len(toks) == 2 && toks[0] == "V2" && toks[1] == "V3" || sent == 4000 || reenc && !sampledReenc && len(toks) == 3) {
+				sampleToks = append(sampleToks, toks)
+				sampledReenc = sampledReenc || reenc
+			}
+			chans[ms%shards] <- job{n, toks, mustEntries(toks)}
 		})
 		perN[fmt.Sprintf("n=%d(size<=%d)", n, max)] = total
 	}
-	close(ch)
+	for w := range chans {
+		close(chans[w])
+	}
 	wg.Wait()
+	phase("proposal")
 	rep.Set("proposal_cases", cnt.evals)
 	rep.Set("proposal_cases_per_n", perN)
 	rep.Set("proposal_accepted", cnt.accepted)
 	rep.Set("proposal_rejected", cnt.rejected)
 	rep.Set("proposal_accepted_per_n", strMap(cnt.acceptedByN))
 	rep.Set("proposal_rejected_although_quorum_present", cnt.rejectedAbove)
+	rep.Set("proposal_cases_with_a_reencoded_repeat", reencCases)
+	rep.Set("proposal_cases_reusing_a_vote_the_history_verified_for_the_other_id", reuseCases)
+	rep.Set("reencodings_accepted_by_the_crypto_client", reencodingNames())
+	rep.Set("reencodings_refused_by_the_crypto_client", rencRefused)
+	rep.Set("histories", historyNames(hists))
+	rep.Set("history_shards", shards)
+	hst.report(rep, "proposal_")
 
-	// --- CheckVote -------------------------------------------------------------
+	// --- CheckVote: every vote x every history ----------------------------------
 	voteEvals, voteAcc := 0, 0
-	rv := newRules(collector) // the collector checks incoming votes
+	vst := &histStats{}
+	var rvNone rules
 	for n := 1; n <= maxN; n++ {
 		firsts := []string{}
 		for i := 1; i <= n; i++ {
@@ -483,7 +698,10 @@ func run(tier core.Tier) *core.Report {
 			firsts = append(firsts, fmt.Sprintf("%s:key=%s", top, vname(n-1)))
 		}
 		if n < 10 {
-			firsts = append(firsts, vname(n+1)) // a validator of a larger set, not of this one
+			firsts = append(firsts, vname(n+1), vname(n+1)+":otherid") // a validator of a larger set, not of this one
+		}
+		for _, r := range renc {
+			firsts = append(firsts, top+"~"+r.name)
 		}
 		seconds := []string{"", top, "X", top + ":corrupt"}
 		lists := [][]string{{}}
@@ -496,74 +714,227 @@ func run(tier core.Tier) *core.Report {
 				}
 			}
 		}
+		set := newPrimedSet(collector, n, historiesFor(historySteps, maxN, maxN), vst) // the collector checks incoming votes
+		rvNone = set.inst[0]
 		for _, toks := range lists {
 			es := mustEntries(toks)
-			acc, t := evalVote(rv, n, es)
-			voteEvals++
-			if acc {
-				voteAcc++
-				if !t.FirstIsMember {
-					c := Case{Seam: "CheckVote", N: n, Collector: collector, Entries: toks}
-					key := voteKey(n, es)
-					cnt.violations["CheckVote "+key]++
-					bst.offer(c, core.Violation{Key: key, Summary: fmt.Sprintf("CheckVote accepted a vote for n=%d validators whose first signature entry (of %v) is not a member's valid signature over the voted id", n, toks),
-						Expected: "refused", Observed: "accepted (the collector then counts this vote towards the threshold)"})
+			t := tallyOf(n, collector, es)
+			accNone := false
+			for hi, h := range set.hists {
+				acc, _ := evalVote(set.inst[hi], n, es)
+				if hi == 0 {
+					accNone = acc
+					voteEvals++
+					if acc {
+						voteAcc++
+					}
+					vst.again++
+					if again, _ := evalVote(set.inst[hi], n, es); again != acc {
+						vst.againDiffers++
+						acc = acc || again
+					}
+				} else {
+					vst.evals++
+					if acc {
+						vst.accepted++
+					} else {
+						vst.rejected++
+					}
+					if acc != accNone {
+						if acc {
+							vst.differsAccept++
+						} else {
+							vst.differsRefuse++
+						}
+					}
 				}
+				if !acc || t.FirstIsMember {
+					continue
+				}
+				if fr, _ := evalVote(newRules(collector), n, es); fr {
+					if hi == 0 {
+						c := Case{Seam: "CheckVote", N: n, Collector: collector, Entries: toks}
+						key := voteKey(n, es)
+						cnt.violations["CheckVote "+key]++
+						bst.offer(c, core.Violation{Key: key, Summary: fmt.Sprintf("CheckVote accepted a vote for n=%d validators whose first signature entry (of %v) is not a member's valid signature over the voted id", n, toks),
+							Expected: "refused", Observed: "accepted (the collector then counts this vote towards the threshold)"})
+					}
+					continue
+				}
+				vst.suspected++
+				et := 1
+				if hi == 0 {
+					et = 2
+				}
+				c, r, need := explain(collector, "CheckVote", n, h, toks, set.seen, et)
+				if r == nil {
+					vst.unconfirmed++
+					continue
+				}
+				vst.confirmed++
+				pastViolation(bst, cnt.violations, c, voteKey(n, es), need, "its first signature entry is not a member's valid signature over the voted id")
+			}
+			set.seen = append(set.seen, toks)
+		}
+	}
+	phase("vote")
+	rep.Set("vote_cases", voteEvals)
+	rep.Set("vote_accepted", voteAcc)
+	vst.report(rep, "vote_")
+
+	// --- tdpos / xpoa CheckMinerMatch with BFT enabled, small n ---------------
+	type bcsOut struct {
+		evals, acc, fullRefused, primedEvals, primedAcc, stepsAcc, stepsRef, differs, below, suspected, unconfirmed int
+		samples                                                                                                     []interface{}
+		violations                                                                                                  map[string]int
+		expired                                                                                                     bool
+	}
+	// one pair of long-lived instances (history-free, primed) per consensus, validator-set size and
+	// shard of the multisets (fixed deal, as above)
+	type bcsJob struct {
+		name             string
+		n, shard, nshard int
+	}
+	var bjobs []bcsJob
+	for _, name := range []string{"tdpos", "xpoa"} {
+		for n := 1; n <= maxNBcs; n++ {
+			ns := 1
+			if n >= 4 {
+				ns = 4 * (n - 3)
+			}
+			for sh := 0; sh < ns; sh++ {
+				bjobs = append(bjobs, bcsJob{name, n, sh, ns})
 			}
 		}
 	}
-	rep.Set("vote_cases", voteEvals)
-	rep.Set("vote_accepted", voteAcc)
-
-	// --- tdpos / xpoa CheckMinerMatch with BFT enabled, small n ---------------
-	bcsEvals, bcsAcc, bcsFullRefused := 0, 0, 0
-	var bcsSamples []interface{}
-	for _, name := range []string{"tdpos", "xpoa"} {
-		for n := 1; n <= maxNBcs; n++ {
-			if rep.Expired() {
-				complete = false
-				break
-			}
+	bcsInstances := 2 * len(bjobs)
+	bouts := make([]bcsOut, len(bjobs))
+	var bwg sync.WaitGroup
+	for bi := range bjobs {
+		bwg.Add(1)
+		go func(bi int) {
+			defer bwg.Done()
+			name, n, o := bjobs[bi].name, bjobs[bi].n, &bouts[bi]
+			shard, nshard := bjobs[bi].shard, bjobs[bi].nshard
+			o.violations = map[string]int{}
 			drv, err := newBcs(name, n)
 			if err != nil {
 				core.HarnessError("C14: cannot construct %s with %d validators: %v", name, n, err)
 			}
-			if full := drv.fullVotes(); !mustCheck(drv, full) {
+			defer drv.stop()
+			// the second long-lived instance has first accepted honest blocks: one justified by the honest
+			// certificate for the OTHER id, one by the honest certificate for the certified id
+			prm, err := newBcs(name, n)
+			if err != nil {
+				core.HarnessError("C14: cannot construct %s with %d validators: %v", name, n, err)
+			}
+			defer prm.stop()
+			a, rf := prm.prime(bcsHistory)
+			o.stepsAcc, o.stepsRef = a, rf
+			if full := drv.fullVotes(); shard == 0 && !mustCheck(drv, full) {
 				// every other validator signed and the block is refused: the fixture's fault unless
 				// CheckProposal itself refuses the same certificate (then the acceptance count shows it)
-				if acceptsProposal(r0, n, full) {
+				if acceptsProposal(newRules("V2"), n, full) {
 					core.HarnessError("C14: %s fixture with %d validators refuses a block carrying all votes that CheckProposal accepts", name, n)
 				}
-				bcsFullRefused++
+				o.fullRefused++
 			}
-			idx := 0
-			forEachCase(n, n+1, func(toks []string) {
-				es := mustEntries(toks)
-				acc, err := drv.check(es)
-				if err != nil {
-					core.HarnessError("C14: %s fixture: %v", name, err)
+			idx, explained := 0, 0
+			var seen [][]string
+			var pool []*bcsDriver // fresh instances made to explain an acceptance, stopped when the shard is done
+			defer func() {
+				for _, d := range pool {
+					d.stop()
 				}
+			}()
+			forEachCase(n, n+1, reencFor(n, reencAllNBcs, maxNBcs), func(ms int, toks []string) {
+				if o.expired || ms%nshard != shard {
+					return
+				}
+				if idx%512 == 0 && rep.Expired() {
+					o.expired = true
+					return
+				}
+				es := mustEntries(toks)
+				acc := mustCheck(drv, es)
+				accP := mustCheck(prm, es)
 				t := tallyOf(n, collector, es)
-				bcsEvals++
-				if idx++; n == 4 && idx == 1500 {
-					bcsSamples = append(bcsSamples, map[string]interface{}{"case": Case{Seam: name + ".CheckMinerMatch", N: n, Collector: collector, Entries: toks}, "accepted": acc, "distinct_valid_non_collector_members": t.Distinct, "needed": t.Threshold})
+				o.evals++
+				o.primedEvals++
+				if idx++; n == 4 && shard == 0 && idx == 400 {
+					o.samples = append(o.samples, map[string]interface{}{"case": Case{Seam: name + ".CheckMinerMatch", N: n, Collector: collector, Entries: toks}, "accepted": acc, "accepted_after_history": accP, "distinct_valid_non_collector_members": t.Distinct, "needed": t.Threshold})
 				}
 				if acc {
-					bcsAcc++
-					if t.Distinct < t.Threshold {
-						key := keyFor(n, es, t, func(x []*entry) bool { ok, _ := drv.check(x); return ok })
-						c, v := proposalViolation(name+".CheckMinerMatch", n, toks, key, t)
-						cnt.violations[name+".CheckMinerMatch "+v.Key]++
-						bst.offer(c, v)
+					o.acc++
+				}
+				if accP {
+					o.primedAcc++
+				}
+				if acc != accP {
+					o.differs++
+				}
+				if (acc || accP) && t.Distinct < t.Threshold {
+					o.below++
+					if explained < maxConfirm {
+						explained++
+						seam := name + ".CheckMinerMatch"
+						c, d, need := explainBcs(name, n, toks, seen, &pool)
+						switch {
+						case d == nil:
+							o.unconfirmed++
+						case need == "nothing":
+							key := keyFor(n, es, t, func(x []*entry) bool { return mustCheck(d, x) })
+							c, v := proposalViolation(seam, n, toks, key, t)
+							o.violations[seam+" "+v.Key]++
+							bst.offer(c, v)
+						default:
+							o.suspected++
+							base := keyFor(n, es, t, func(x []*entry) bool { return mustCheck(d, x) })
+							pastViolation(bst, o.violations, c, base, need, fmt.Sprintf("%d distinct members validly signed the certified id, %d needed", t.Distinct, t.Threshold))
+						}
 					}
 				}
+				seen = append(seen, toks)
 			})
-			drv.stop()
+		}(bi)
+	}
+	bwg.Wait()
+	phase("bcs")
+	bcsEvals, bcsAcc, bcsFullRefused := 0, 0, 0
+	var bcsSamples []interface{}
+	bsum := bcsOut{}
+	for i := range bouts {
+		o := &bouts[i]
+		bcsEvals += o.evals
+		bcsAcc += o.acc
+		bcsFullRefused += o.fullRefused
+		bcsSamples = append(bcsSamples, o.samples...)
+		bsum.primedEvals += o.primedEvals
+		bsum.primedAcc += o.primedAcc
+		bsum.stepsAcc += o.stepsAcc
+		bsum.stepsRef += o.stepsRef
+		bsum.differs += o.differs
+		bsum.below += o.below
+		bsum.suspected += o.suspected
+		bsum.unconfirmed += o.unconfirmed
+		for k, v := range o.violations {
+			cnt.violations[k] += v
+		}
+		if o.expired {
+			complete = false
 		}
 	}
 	rep.Set("bcs_cases", bcsEvals)
 	rep.Set("bcs_accepted", bcsAcc)
 	rep.Set("bcs_instances_refusing_a_full_certificate", bcsFullRefused)
+	rep.Set("bcs_history", bcsHistory)
+	rep.Set("bcs_long_lived_instances", bcsInstances)
+	rep.Set("bcs_honest_blocks_accepted", bsum.stepsAcc)
+	rep.Set("bcs_honest_blocks_refused", bsum.stepsRef)
+	rep.Set("bcs_cases_after_history", bsum.primedEvals)
+	rep.Set("bcs_accepted_after_history", bsum.primedAcc)
+	rep.Set("bcs_verdict_differs_from_history_free_instance", bsum.differs)
+	rep.Set("bcs_below_quorum_acceptances_on_long_lived_instances", map[string]int{"seen": bsum.below, "rerun_on_fresh_instances_and_needing_a_past": bsum.suspected + bsum.unconfirmed, "not_reproduced": bsum.unconfirmed})
 
 	// --- report ---------------------------------------------------------------
 	keys := make([]string, 0, len(bst.m))
@@ -580,11 +951,13 @@ func run(tier core.Tier) *core.Report {
 			rep.Violation(bst.m[k])
 		}
 	}
+	histEvals := hst.evals + hst.again + vst.evals + vst.again + bsum.primedEvals
 	rep.Set("violating_cases_per_seam_and_key", cnt.violations)
-	rep.Set("evaluations", thr+cnt.evals+voteEvals+bcsEvals)
+	rep.Set("evaluations", thr+cnt.evals+voteEvals+bcsEvals+histEvals)
+	rep.Set("evaluations_on_instances_with_a_past", histEvals)
 	rep.Set("distinct_nontrivial", cnt.nontrivial)
-	rep.Set("rule", "cases = every multiset of signature entries of size <= min(n+1, cap) over the kinds {valid member Vi (i=2..n), collector V1, non-member X, member over another id, corrupted, empty, member address with another member's key, member address with X's key}, each in canonical and reversed order, repeats as identical copies and as fresh signatures; a case is non-trivial when its list holds at least one entry that must not count (repeat, collector, non-member, other id, invalid, mismatch); counted over the CheckProposal seam")
-	rep.Set("bounds", fmt.Sprintf("n=1..%d, list size <= min(n+1,%d); CalVotesThreshold 0<=input<=n<=10; CheckVote n=1..%d; tdpos/xpoa n=1..%d size<=n+1", maxN, capSize, maxN, maxNBcs))
+	rep.Set("rule", "cases = every multiset of signature entries of size <= min(n+1, cap) over the kinds {valid member Vi (i=2..n), collector V1, non-member X, member over another id, corrupted, empty, member address with another member's key, member address with X's key}, each in canonical and reversed order; the further copies of a repeated member in every spelling: identical copies, fresh signatures of the same member (the signer is randomised), and each re-encoding the crypto client accepts (public-key JSON respelled: white space, member order, member-name case, extra member, trailing newline, escaped string, duplicated member; signature respelled: trailing byte after the DER value, (r,N-s)) - a repeated member must count once however its entries are spelled; a case is non-trivial when its list holds at least one entry that must not count (repeat, collector, non-member, other id, invalid, mismatch); counted over the CheckProposal seam on the history-free instance. HISTORY dimension: every case is judged by long-lived instances (fixed deal of the multisets to "+fmt.Sprint(shards)+" shards, one instance per shard, validator-set size and history, never reset between cases) that were first shown honest traffic through the same seams: none / each single step / all steps of {every member's vote for the other id - the very entries the cases re-use as Vi:otherid -, the honest certificate for the other id, every member's vote and the honest certificate for the certified id, votes of former members X and V(n+1) under the wider earlier validator set}; the history-free instance is shown every list twice in a row (validator sets up to the single-step bound; CheckVote: all). Judged on every instance: accepted => quorum of distinct valid member signatures (absolute), and compared with the history-free verdict (differential, counted). A below-quorum acceptance that a blank instance does not show is re-run on fresh instances to find the smallest past that reproduces it (history alone, second presentation, one earlier certificate, all earlier certificates of the shard)")
+	rep.Set("bounds", fmt.Sprintf("n=1..%d, list size <= min(n+1,%d); histories none+all n<=%d, single steps and second presentation n<=%d; CalVotesThreshold 0<=input<=n<=10; CheckVote n=1..%d, all histories; tdpos/xpoa n=1..%d size<=n+1, history-free and after %v; repeats once per re-encoding for n<=%d (tdpos/xpoa n<=%d), once with rotating re-encodings for n<=%d (tdpos/xpoa: all larger n), identical and fresh copies only above", maxN, capSize, maxN, histSingleN, maxN, maxNBcs, bcsHistory, reencAllN, reencAllNBcs, reencOnceN))
 	rep.Set("accepted_total", cnt.accepted+voteAcc+bcsAcc)
 	rep.Set("exhaustive", complete)
 	if len(bcsSamples) > 0 {
@@ -596,15 +969,17 @@ func run(tier core.Tier) *core.Report {
 	}
 	{
 		toks := []string{"V3:key=X", "V3"}
-		acc, t := evalVote(rv, 3, mustEntries(toks))
+		acc, t := evalVote(rvNone, 3, mustEntries(toks))
 		rep.Sample(map[string]interface{}{"case": Case{Seam: "CheckVote", N: 3, Collector: collector, Entries: toks}, "accepted": acc, "first_is_valid_member_signature": t.FirstIsMember})
 	}
 	rep.Assume("a certificate does not name its collector; the sender of the proposal / proposer of the block (V1) may carry a certificate another validator collected, so V1's own valid signature counts as one member signature (excluding it would refuse the honest fork case of TestSMR); judged: accepted => distinct valid member signatures >= n-floor((n-1)/3)-1")
 	rep.Assume("entries of one kind are interchangeable: invalid entries are attributed to the members Vn, Vn-1, ... in turn; lists are tried in canonical and reversed order, not in every permutation")
 	rep.Assume("tdpos / xpoa run over a stub LedgerRely, network and kernel registry (two stored blocks, initial validator set), block at height 2 wrapped by the real state.BlockAgent")
 	rep.Assume("binding of the certificate to the block's parent (justify id vs PreHash) is outside this statement and not judged here")
-	fmt.Printf("C14 %s: threshold pairs=%d; CheckProposal cases=%d accepted=%d rejected=%d (rejected with quorum present=%d); CheckVote cases=%d accepted=%d; tdpos/xpoa cases=%d accepted=%d\n",
-		tier, thr, cnt.evals, cnt.accepted, cnt.rejected, cnt.rejectedAbove, voteEvals, voteAcc, bcsEvals, bcsAcc)
+	rep.Assume("histories consist of CheckVote / CheckProposal (CheckMinerMatch) calls only; VoteProposal / UpdatePreferredRound, which legitimately raise the view floors of an instance, are not part of a history")
+	rep.Assume("a verdict that differs from the history-free one without breaking the threshold bound (e.g. a list with a quorum and one invalid entry) is counted, not reported: the statement bounds acceptance only")
+	fmt.Printf("C14 %s: threshold pairs=%d; CheckProposal cases=%d accepted=%d rejected=%d (rejected with quorum present=%d); CheckVote cases=%d accepted=%d; tdpos/xpoa cases=%d accepted=%d; on instances with a past: %d evaluations, verdict differs from the history-free one in %d\n",
+		tier, thr, cnt.evals, cnt.accepted, cnt.rejected, cnt.rejectedAbove, voteEvals, voteAcc, bcsEvals, bcsAcc, histEvals, hst.differsAccept+hst.differsRefuse+hst.againDiffers+vst.differsAccept+vst.differsRefuse+vst.againDiffers+bsum.differs)
 	return rep
 }
 
@@ -663,35 +1038,48 @@ func replay(raw json.RawMessage) (bool, string, error) {
 		}
 		es[i] = e
 	}
+	need := "history"
+	if len(c.Earlier) > 0 || c.Times > 1 {
+		need = "earlier"
+	}
+	past := ""
+	if c.hasPast() {
+		past = fmt.Sprintf(" after history=%v earlier_certificates=%d presentations=%d", c.History, len(c.Earlier), c.Times)
+	}
 	switch c.Seam {
 	case "CheckProposal":
-		r := newRules("V2")
-		acc, t := evalProposal(r, c.N, es)
+		// a fresh instance, or a fresh instance shown the recorded past first
+		r, acc := replayHistory("V2", c.Seam, c.N, c.History, c.Earlier, c.EarlierTimes, es, c.Times)
+		t := tallyOf(c.N, collector, es)
 		bad := acc && t.Distinct < t.Threshold
-		msg := fmt.Sprintf("CheckProposal n=%d entries=%v accepted=%v distinct=%d needed=%d", c.N, c.Entries, acc, t.Distinct, t.Threshold)
+		msg := fmt.Sprintf("CheckProposal%s n=%d entries=%v accepted=%v distinct=%d needed=%d", past, c.N, c.Entries, acc, t.Distinct, t.Threshold)
 		if bad {
-			msg += " class=" + keyFor(c.N, es, t, func(x []*entry) bool { return acceptsProposal(r, c.N, x) })
+			class := keyFor(c.N, es, t, func(x []*entry) bool { return acceptsProposal(r, c.N, x) })
+			if c.hasPast() {
+				class = histKey(need, class)
+			}
+			msg += " class=" + class
 		}
 		return bad, msg, nil
 	case "CheckVote":
-		acc, t := evalVote(newRules(collector), c.N, es)
-		msg := fmt.Sprintf("CheckVote n=%d entries=%v accepted=%v first_is_valid_member=%v", c.N, c.Entries, acc, t.FirstIsMember)
+		_, acc := replayHistory(collector, c.Seam, c.N, c.History, c.Earlier, c.EarlierTimes, es, c.Times)
+		t := tallyOf(c.N, collector, es)
+		msg := fmt.Sprintf("CheckVote%s n=%d entries=%v accepted=%v first_is_valid_member=%v", past, c.N, c.Entries, acc, t.FirstIsMember)
 		if acc && !t.FirstIsMember {
-			msg += " class=" + voteKey(c.N, es)
+			class := voteKey(c.N, es)
+			if c.hasPast() {
+				class = histKey(need, class)
+			}
+			msg += " class=" + class
 		}
 		return acc && !t.FirstIsMember, msg, nil
 	case "tdpos.CheckMinerMatch", "xpoa.CheckMinerMatch":
-		drv, err := newBcs(strings.TrimSuffix(c.Seam, ".CheckMinerMatch"), c.N)
-		if err != nil {
-			return false, "", err
-		}
-		defer drv.stop()
-		acc, err := drv.check(es)
+		_, acc, err := replayBcs(strings.TrimSuffix(c.Seam, ".CheckMinerMatch"), c.N, c.History, c.Earlier, es)
 		if err != nil {
 			return false, "", err
 		}
 		t := tallyOf(c.N, collector, es)
-		return acc && t.Distinct < t.Threshold, fmt.Sprintf("%s n=%d entries=%v accepted=%v distinct=%d needed=%d", c.Seam, c.N, c.Entries, acc, t.Distinct, t.Threshold), nil
+		return acc && t.Distinct < t.Threshold, fmt.Sprintf("%s%s n=%d entries=%v accepted=%v distinct=%d needed=%d", c.Seam, past, c.N, c.Entries, acc, t.Distinct, t.Threshold), nil
 	}
 	return false, "", fmt.Errorf("unknown seam %q", c.Seam)
 }
